@@ -102,7 +102,16 @@ type VisitorNode struct {
 
 // Key returns a unique string representation for the node with its trace
 func (v *VisitorNode) Key() KeyType {
-	return v.NodeWithTrace.Key() + "_" + strconv.Itoa(v.Status.Kind) + "." + strings.Join(v.AccessPaths, "|")
+	status := strconv.Itoa(v.Status.Kind)
+	if v.Status.Kind == ClosureTracing && v.Status.TracingInfo != nil {
+		// The bound variable being traced is part of the state of the node: two different bound variables of the
+		// same closure must both be traced into the closure's body.
+		status += "#" + strconv.Itoa(v.Status.TracingInfo.Index)
+		if g := v.Status.TracingInfo.ClosureSummaryGraph; g != nil {
+			status += "@" + strconv.FormatUint(uint64(g.ID), 10)
+		}
+	}
+	return v.NodeWithTrace.Key() + "_" + status + "." + strings.Join(v.AccessPaths, "|")
 }
 
 // AddChild adds a child to the node
